@@ -33,6 +33,14 @@ def signature(P):
     return json.dumps([[n["t"], n["a"], n["b"], n["c"], n["n"], ("?" if n["t"] == "M" and not n.get("foc") else n["m"])] for n in P])
 
 
+def cap(wrapped, n):
+    """deterministic sample of at most n cases (by the hash in each case's id), for tiers whose full product does not finish in hours"""
+    if len(wrapped) <= n:
+        return wrapped
+    key = lambda w: hashlib.sha1((str(SEED) + str(w["id"])).encode()).hexdigest()
+    return sorted(wrapped, key=key)[:n]
+
+
 def stratified(progs, per_group, seed):
     groups = collections.OrderedDict()
     for P in progs:
